@@ -9,8 +9,8 @@
 (*   Restart    PersistentWorker.restart() of a dead worker: __init__(_is_restart=True)     *)
 (*   Auto       leaving an autoclose_active_children() block: close / wait / terminate      *)
 (*              every yielded worker                                                        *)
-(* Switches (TRUE = the algorithm the spec stands for, i.e. with proposed_fixes/C19_*.diff; *)
-(* FALSE = what the code does now; TLC must reject it):                                     *)
+(* Switches (TRUE = the algorithm the spec stands for = the code since /repo commit         *)
+(* 14d7ee1; FALSE = what the code did before; TLC must reject it):                          *)
 (*   FixPrune   FALSE: the pruned list is assigned to a different attribute (Worker.        *)
 (*              _children), so the registry never shrinks and the unpruned list is yielded  *)
 (*   FixRestart FALSE: register_child is skipped when _is_restart (a worker that was        *)
